@@ -58,17 +58,18 @@ struct MBlock {
     }
 };
 
-struct MOutput { std::vector<MBlock> blocks; size_t header_params = 0; std::string preamble; bool closed = false; uint64_t bytes_reported = 0; bool closed_by_rotation = false; };
+struct MOutput { std::vector<MBlock> blocks; size_t header_params = 0; std::vector<unsigned> header_versions; std::string preamble; bool closed = false; uint64_t bytes_reported = 0; bool closed_by_rotation = false; };
 
 struct Exporter {
-    std::vector<Params> params; unsigned active = 0; MBlock cur; size_t blocks_written = 0;
+    std::vector<Params> params; std::vector<unsigned> versions; Params curp; unsigned cur_version = 0; unsigned active = 0; MBlock cur; size_t blocks_written = 0;
     std::vector<MOutput> outs; bool precond_violated = false;
     unsigned vmaj = 1, vmin = 0; int vpriv = 1; // -1 absent
     // record streams for conservation oracles
     std::vector<std::string> submitted_qr, submitted_mm; std::map<std::string, uint64_t> submitted_aec;
 
-    explicit Exporter(const std::vector<Params>& p) : params(p) { outs.emplace_back(); cur.bpi = 0; }
-    const Params& P() const { return params[cur.bpi]; }
+    explicit Exporter(const std::vector<Params>& p) : params(p), versions(p.size(), 0) { outs.emplace_back(); cur.bpi = 0; curp = params[0]; }
+    // the block being filled works with the copy of the parameters it was armed with
+    const Params& P() const { return curp; }
     bool full() const { uint64_t m = P().max_items; return cur.qrs.size() >= m || cur.aec.size() >= m || cur.mms.size() >= m; }
 
     std::string preamble_dump() const {
@@ -80,11 +81,13 @@ struct Exporter {
         bool wrote = false;
         if (cur.items() > 0) {
             MOutput& o = outs.back();
-            if (blocks_written == 0) { o.header_params = params.size(); o.preamble = preamble_dump(); }
-            if (cur.bpi >= o.header_params) precond_violated = true;   // caller duty (cdns.h add_block_parameters doc)
+            if (blocks_written == 0) { o.header_params = params.size(); o.header_versions = versions; o.preamble = preamble_dump(); }
+            // caller duties: a set added after the header is used only after rotation (cdns.h add_block_parameters doc); parameters edited in
+            // place (get_active_block_parameters_ref) describe only outputs whose header is written afterwards
+            if (cur.bpi >= o.header_params || cur_version != o.header_versions[cur.bpi]) precond_violated = true;
             o.blocks.push_back(cur); blocks_written++; wrote = true;
         }
-        cur = MBlock(); cur.bpi = active;
+        cur = MBlock(); cur.bpi = active; curp = params[active]; cur_version = versions[active];
         return wrote;
     }
     bool buffer_qr(const GenericQueryResponse& g, const std::string* stats) {
@@ -114,7 +117,8 @@ struct Exporter {
         return wrote;
     }
     bool set_active(unsigned i) { if (i >= params.size()) return false; active = i; return true; }
-    unsigned add_params(const Params& p) { params.push_back(p); return (unsigned)params.size() - 1; }
+    unsigned add_params(const Params& p) { params.push_back(p); versions.push_back(0); return (unsigned)params.size() - 1; }
+    void edit_active(const Params& p) { params[active] = p; versions[active]++; }
 };
 
 } // namespace model
